@@ -164,6 +164,11 @@ type guardedAccess struct {
 	Write  bool
 	Locks  string
 	Exempt string
+	// condition-variable operations (Signal/Broadcast/Wait) are recorded as
+	// accesses too: they need the cond's locker
+	CondOp   string
+	Conds    []FieldID
+	Deferred bool
 }
 
 type escapeReport struct {
@@ -1313,7 +1318,7 @@ func (la *LockAnalysis) checkAccess(f *Func, r *funcLocks, sel *ast.SelectorExpr
 	info := f.Info()
 	write := la.isWrite(sel)
 	acc := guardedAccess{F: f, Node: sel, Field: id, Lock: q.String(), Write: write, Locks: st.String()}
-	if ap, ok := pathOf(info, sel.X); ok && valuePath(ap) && la.isFresh(f, ap.Root, 0) {
+	if ap, ok := pathOf(info, sel.X); ok && la.freshPath(f, ap) {
 		acc.Held, acc.Exempt = true, "object under construction (allocated in this function)"
 		la.accesses = append(la.accesses, acc)
 		return
@@ -1358,8 +1363,98 @@ func (la *LockAnalysis) translateReq(callee *Func, q lockReq, info *types.Info, 
 	return q
 }
 
+// condOwnerLock: for a *sync.Cond held in field c of an owner struct that also
+// owns a guarded field, the mutex the cond is tied to.
+func (la *LockAnalysis) condOwnerLock(c FieldID) (*types.Var, bool) {
+	for id, g := range la.guards {
+		if g.LockOwner.Pkg == c.Pkg && g.LockOwner.Type == c.Type && id.Pkg == c.Pkg {
+			if lf := la.lookupField(g.LockOwner, g.Lock); lf != nil {
+				return lf, true
+			}
+		}
+	}
+	return nil, false
+}
+
+// condFields resolves a *sync.Cond expression to the set of cond fields it may
+// denote (a local assigned in several branches yields several).
+func (la *LockAnalysis) condFields(f *Func, x ast.Expr) []FieldID {
+	info := f.Info()
+	var out []FieldID
+	add := func(e ast.Expr) {
+		ap, ok := resolvePath(f, e)
+		if !ok || len(ap.Fields) == 0 {
+			return
+		}
+		if id, ok := la.p.Field(ap.Fields[len(ap.Fields)-1]); ok {
+			for _, o := range out {
+				if o == id {
+					return
+				}
+			}
+			out = append(out, id)
+		}
+	}
+	if id, ok := ast.Unparen(x).(*ast.Ident); ok {
+		obj := info.Uses[id]
+		if singleDef(f, obj) == nil {
+			// all assignments to the local
+			ast.Inspect(f.Root().Body, func(n ast.Node) bool {
+				if as, ok := n.(*ast.AssignStmt); ok && len(as.Lhs) == len(as.Rhs) {
+					for i, l := range as.Lhs {
+						if lid, ok := l.(*ast.Ident); ok && (info.Uses[lid] == obj || info.Defs[lid] == obj) {
+							add(as.Rhs[i])
+						}
+					}
+				}
+				return true
+			})
+			return out
+		}
+	}
+	add(x)
+	return out
+}
+
+var condFuncs = map[string]string{"sync.(*Cond).Signal": "Signal", "sync.(*Cond).Broadcast": "Broadcast", "sync.(*Cond).Wait": "Wait"}
+
+func (la *LockAnalysis) checkCondOp(f *Func, r *funcLocks, call *ast.CallExpr, st lockSet, deferred bool) {
+	info := f.Info()
+	op, ok := condFuncs[callName(info, call)]
+	if !ok {
+		return
+	}
+	conds := la.condFields(f, recvExpr(call))
+	if len(conds) == 0 {
+		la.noteUnknown(f, call, "sync.Cond operation on an expression that does not resolve to a cond field")
+		return
+	}
+	lf, ok := la.condOwnerLock(conds[0])
+	if !ok {
+		return
+	}
+	q := &lockReq{Field: lf, ByType: true, Why: fmt.Sprintf("%s of %s", op, conds[0]), WhyPos: call.Pos(), Write: true}
+	// per-variable identity when the cond is reached directly from a variable
+	if ap, ok := resolvePath(f, recvExpr(call)); ok && len(ap.Fields) == 1 {
+		q.ByType, q.Root, q.Path = false, ap.Root, []*types.Var{lf}
+	}
+	held := la.holds(st, q, true)
+	acc := guardedAccess{F: f, Node: call, Field: conds[0], Lock: q.String(), Held: held, Write: true, Locks: st.String(), CondOp: op, Conds: conds, Deferred: deferred}
+	if !held {
+		r.reqs[q.key()] = *q
+	}
+	la.accesses = append(la.accesses, acc)
+}
+
 func (la *LockAnalysis) checkCall(f *Func, r *funcLocks, call *ast.CallExpr, st lockSet) {
 	info := f.Info()
+	if _, isDefer := la.p.Parent(call).(*ast.DeferStmt); isDefer {
+		if ds := la.p.Parent(call).(*ast.DeferStmt); ds.Call == call {
+			la.checkCondOp(f, r, call, la.deferredState(r, ds), true)
+		}
+	} else {
+		la.checkCondOp(f, r, call, st, false)
+	}
 	fn := calleeFunc(info, call)
 	cf := la.p.FuncOf(fn)
 	if cf == nil {
@@ -1487,6 +1582,39 @@ func (la *LockAnalysis) HoldsFieldAt(f *Func, n ast.Node, fieldName string) bool
 func valuePath(ap accessPath) bool {
 	for _, f := range ap.Fields {
 		if _, ok := f.Type().Underlying().(*types.Struct); !ok {
+			return false
+		}
+	}
+	return true
+}
+
+// freshPath: the object reached by ap was allocated in this function: the
+// root variable is fresh and every pointer hop on the way was assigned a fresh
+// allocation here (q.root = &element{...}; q.root.next = ...).
+func (la *LockAnalysis) freshPath(f *Func, ap accessPath) bool {
+	if !la.isFresh(f, ap.Root, 0) {
+		return false
+	}
+	info := f.Info()
+	for i, fld := range ap.Fields {
+		if _, ok := fld.Type().Underlying().(*types.Struct); ok {
+			continue
+		}
+		want := accessPath{ap.Root, ap.Fields[:i+1]}.Key()
+		assigned := false
+		walkNoLit(f.Body, func(x ast.Node) bool {
+			as, ok := x.(*ast.AssignStmt)
+			if !ok || len(as.Lhs) != len(as.Rhs) {
+				return true
+			}
+			for j, l := range as.Lhs {
+				if lp, ok := pathOf(info, l); ok && lp.Key() == want && la.freshExpr(f, as.Rhs[j], 0) {
+					assigned = true
+				}
+			}
+			return true
+		})
+		if !assigned {
 			return false
 		}
 	}
